@@ -9,6 +9,8 @@
 //!           runs out of flow-control credit stays pending and is cancelled), then the receives
 //!         2 mpsc channel with remote senders   3 lr channel   4 oneshot channels
 //!         5 mpsc, oracle only (small local buffer, concurrent senders); output is the single number 1
+//!         6 as 1 with channel halves inside values (their encoded size varies with the random port
+//!           number, so the credit arithmetic is not predictable): oracle only, output 1
 //!   smd / rmd  max_data_size of the sending / receiving endpoint;  cs chunk size of the receiving endpoint
 //!   smax / rmax  max_item_size of the sender / receiver
 //!   send op:  0 sender tag plen fail nports poison L W
@@ -281,12 +283,12 @@ fn parse(inp: &[u128]) -> Option<Case> {
         rmax: inp[6] as usize,
         ops,
     };
-    if c.kind > 5 || c.cs < 4 || c.cs > 100_000 || c.smd < 1 || c.rmd < 1 {
+    if c.kind > 6 || c.cs < 4 || c.cs > 100_000 || c.smd < 1 || c.rmd < 1 {
         return None;
     }
     // kind 1: receive buffer; kinds 2 and 5: number of remote senders
     match c.kind {
-        1 if c.rb < 64 => return None,
+        1 | 6 if c.rb < 64 => return None,
         2 | 5 if !(1..=3).contains(&c.rb) => return None,
         _ => {}
     }
@@ -569,7 +571,7 @@ impl World {
 
 fn cfgs(c: &Case) -> (Cfg, Cfg) {
     let big = Cfg::default().receive_buffer;
-    let rb = if c.kind == 1 { c.rb } else { big };
+    let rb = if matches!(c.kind, 1 | 6) { c.rb } else { big };
     (
         Cfg { connection_timeout: None, max_data_size: c.smd, chunk_size: 16, ..Default::default() },
         Cfg { connection_timeout: None, max_data_size: c.rmd, chunk_size: c.cs, receive_buffer: rb, ..Default::default() },
@@ -1141,6 +1143,7 @@ fn signature(c: &Case, t: &Trace) -> String {
         2 => "mpsc",
         3 => "lr",
         4 => "oneshot",
+        6 => "baseblkp",
         _ => "mpscconc",
     });
     if matches!(c.kind, 2 | 5) {
@@ -1169,6 +1172,10 @@ fn signature(c: &Case, t: &Trace) -> String {
         }
         if sp.nports > 0 {
             add("ports", &mut feats);
+            // the data message went out complete, the port batch did not
+            if *r == SRes::Cancelled && o.mode != 2 {
+                add("portcut", &mut feats);
+            }
         }
         // an unfinished message that nevertheless carries a complete encoding (finding F12)
         if *r != SRes::Ok && sp.fail == sp.plen + 1 {
@@ -1210,8 +1217,10 @@ pub fn exec(inp: &[u128]) -> (Vec<u128>, String, String) {
     std::thread::spawn(move || {
         let rt = tokio::runtime::Builder::new_current_thread().enable_time().start_paused(true).build().unwrap();
         let t = rt.block_on(async {
+            // remoc's one-time thread test (a plain thread that the paused clock does not wait for)
+            let _ = remoc::exec::are_threads_available().await;
             match c2.kind {
-                0 | 1 | 3 => run_stream(&c2).await,
+                0 | 1 | 3 | 6 => run_stream(&c2).await,
                 2 => run_mpsc(&c2).await,
                 4 => run_oneshot(&c2).await,
                 _ => run_mpsc_conc(&c2).await,
@@ -1229,11 +1238,12 @@ pub fn exec(inp: &[u128]) -> (Vec<u128>, String, String) {
         eprintln!("case {c:?}\nsends {:?}\nrecvs {:?}\ndrain {:?}\nticks {} complete {}", t.sends, t.recvs, t.drain, t.ticks, t.complete);
     }
     let verdict = match c.kind {
-        0 | 1 | 3 => oracle(&c, &t, c.rmax, 1),
+        0 | 1 | 3 | 6 => oracle(&c, &t, c.rmax, 1),
         2 | 5 => oracle(&c, &t, c.smax, c.rb as usize),
         _ => oracle_oneshot(&c, &t),
     };
-    (t.out.clone(), signature(&c, &t), verdict)
+    let out = if c.kind == 6 { vec![1] } else { t.out.clone() };
+    (out, signature(&c, &t), verdict)
 }
 
 // ------------------------------------------------------------------------------------------------
@@ -1301,7 +1311,7 @@ pub fn gen(r: &mut Rng, i: usize) -> Vec<Vec<u128>> {
         15 => 3,
         16 => 4,
         17 => 5,
-        18 => 3,
+        18 => if i % 40 == 18 { 6 } else { 3 },
         _ => 100, // the F12 stream
     };
     let mds = [8u64, 13, 16, 24, 32, 50, 64, 100, 200, 1000];
@@ -1374,6 +1384,38 @@ pub fn gen(r: &mut Rng, i: usize) -> Vec<Vec<u128>> {
             if r.chance(1, 2) {
                 for d in 0..ns {
                     v.extend([3, d as u128]);
+                }
+            }
+            v.extend([1, 1, 1]);
+        }
+        6 => {
+            // the credit runs out in the port batch: value of `pool - r` encoded bytes (r < 4) with one half
+            let rb = *r.pick(&[80u64, 100, 128]);
+            v.extend([6, 1000, rmd as u128, cs as u128, rb as u128, 100_000, rmax as u128]);
+            let mut pool = rb;
+            if r.chance(1, 2) {
+                let plen = r.range(0, 10);
+                let (l, w) = measure(g.next_tag, plen as usize, 0, 0, false, false);
+                v.extend([0, 0, g.next_tag as u128, plen as u128, 0, 0, 0, l as u128, w as u128]);
+                g.next_tag += 1;
+                pool -= l as u64;
+            }
+            let (l0, _) = measure(g.next_tag, 0, 0, 1, false, false);
+            let want = pool.saturating_sub(r.below(5));
+            let plen = want.saturating_sub(l0 as u64);
+            let (l, w) = measure(g.next_tag, plen as usize, 0, 1, false, false);
+            v.extend([0, 0, g.next_tag as u128, plen as u128, 0, 1, 0, l as u128, w as u128]);
+            g.next_tag += 1;
+            // the receiver takes what has arrived (credit comes back), then further values follow: the
+            // first of them meets a receiver that still waits for the ports of the cut value
+            v.extend([1, 1]);
+            for _ in 0..r.range(1, 3) {
+                let plen = r.range(0, 30);
+                let (l, w) = measure(g.next_tag, plen as usize, 0, 0, false, false);
+                v.extend([0, 0, g.next_tag as u128, plen as u128, 0, 0, 0, l as u128, w as u128]);
+                g.next_tag += 1;
+                if r.chance(1, 2) {
+                    v.push(1);
                 }
             }
             v.extend([1, 1, 1]);
